@@ -29,7 +29,17 @@ echo "demo rc without=$rc_without with=$rc_with"
 cd $REPO && git diff --quiet || { echo "$REPO dirty"; exit 2; }
 # a change made against an older tree may have been rebased by hand onto the current one
 RP="$OUT/change$N.diff"; [ -f "$OUT/change$N.rebased.diff" ] && RP="$OUT/change$N.rebased.diff"
-git apply "$RP" || exit 2
+if ! git apply "$RP" 2>/dev/null; then
+  # the context moved (a later fix commit): re-make the same edit with fuzz and keep it as the rebased patch
+  if patch -p1 -F3 --no-backup-if-mismatch -s < "$RP" >/dev/null 2>&1; then
+    find src -name '*.orig' -o -name '*.rej' | xargs -r rm -f
+    git diff > "$OUT/change$N.rebased.diff"; RP="$OUT/change$N.rebased.diff"
+    echo "patch re-applied with fuzz (context moved by a later commit)"
+  else
+    find src -name '*.orig' -o -name '*.rej' | xargs -r rm -f; git checkout -q -- .
+    echo "patch does not apply to $REPO HEAD"; exit 2
+  fi
+fi
 caught=""; results=""
 for c in $ID $EXTRA; do
   o=$(cd $V && ./check $c quick 2>&1); rc=$?
